@@ -55,7 +55,12 @@ def build(variant, salt, tcp=False):
     if cfg["family"] == "ES" and salt:
         sim.regs = _Regs(default)
     run_sync(inv.read_device_info())
+    for sid_, st_ in inv._settings.items():     # first sighting of every definition of this variant in this process (see check_write)
+        DEF_SEEN.setdefault((variant, sid_), (rs.type_name(st_), st_.offset, st_.size_))
     return inv, sim
+
+
+DEF_SEEN = {}
 
 
 class _Regs(dict):
@@ -124,15 +129,37 @@ def set_prior(sim, setting, word):
         sim.set(setting.offset, word)
 
 
-def check_write(acc: Acc, variant, sid, value, salt, tcp=False, counted=False, prior_word=None):
-    """value: python value handed to write_setting (for groups: bytes). prior_word: explicit prior content of the first register."""
+INTERLOPER = {"DT-three": "DT-single", "DT-single": "DT-three", "ES-v1": "ES-v2", "ES-v2": "ES-v1"}
+
+
+def check_write(acc: Acc, variant, sid, value, salt, tcp=False, counted=False, prior_word=None, interloper=False, expect_def=None):
+    """value: python value handed to write_setting (for groups: bytes). prior_word: explicit prior content of the first register.
+    interloper: ANOTHER inverter object of a different model of the same family is created and identified in between (its own
+    simulated inverter) - the write must still use this object's definitions."""
     acc.case()
     inv, sim = build(variant, salt, tcp)
+    if interloper:
+        other = INTERLOPER.get(variant) or next((v for v in VARIANTS if v != variant and VARIANTS[v]["family"] == VARIANTS[variant]["family"]), None)
+        if other:
+            cfg2 = dict(VARIANTS[other])
+            cfg2["tcp"] = False
+            inv2, _sim2 = siminv.build_direct(cfg2, default=0)
+            run_sync(inv2.read_device_info())
     setting = inv._settings[sid]
     tn = rs.type_name(setting)
     fam = VARIANTS[variant]["family"]
     case = {"variant": variant, "setting": sid, "value": value if not isinstance(value, datetime) else value.isoformat(),
-            "salt": salt, "tcp": tcp, "type": tn, "prior_word": prior_word}
+            "salt": salt, "tcp": tcp, "type": tn, "prior_word": prior_word, "interloper": interloper}
+    if expect_def is not None and tuple(expect_def) != (tn, setting.offset, setting.size_):
+        return acc.fail("C17|%s|setting-definition-unstable" % fam, "setting %r is %s@%d/%d bytes on this object but %s@%d/%d bytes on an identically "
+                        "configured object of the same process" % ((sid, tn, setting.offset, setting.size_) + tuple(expect_def)), case)
+    # identically configured inverter objects must hold the same definition for an id, whatever other objects were created in the
+    # process (first sighting = the objects built while the jobs were planned)
+    sig = (tn, setting.offset, setting.size_)
+    first = DEF_SEEN.setdefault((variant, sid), sig)
+    if first != sig:
+        return acc.fail("C17|%s|setting-definition-unstable" % fam, "setting %r is %s@%d/%d bytes on this object but was %s@%d/%d bytes on an identically "
+                        "configured object created earlier in the process" % ((sid,) + sig + first), case)
     if prior_word is not None:
         set_prior(sim, setting, prior_word)
     get, wlog, snap, space = reg_view(sim, setting)
@@ -141,6 +168,12 @@ def check_write(acc: Acc, variant, sid, value, salt, tcp=False, counted=False, p
     try:
         want = rs.encode(setting, value, prior) if tn not in rs.GROUPS else bytes(value)
     except Exception as ex:
+        if expect_def is not None and expect_def != (tn, setting.offset, setting.size_):
+            # the value was chosen for the definition an identically configured inverter object held a moment ago; this object
+            # holds ANOTHER definition under the same id (something leaked between objects): the write cannot be 'addressed to
+            # exactly the registers of that setting'
+            return acc.fail("C17|%s|setting-definition-unstable" % fam, "setting %r is %s@%d/%d bytes on this object but %s@%d/%d bytes on an identically "
+                            "configured object created earlier in the process" % ((sid, tn, setting.offset, setting.size_) + tuple(expect_def)), case)
         raise harness.HarnessError("reference encoder failed for %s %r: %r" % (sid, value, ex))
     shares = setting.size_ == 1
     neg = (isinstance(value, (int, float)) and value < 0)
@@ -281,7 +314,8 @@ def sweep_job(job):
     inv, _ = build(variant, 0)
     setting = inv._settings[sid]
     for k in range(lo, hi):
-        check_write(acc, variant, sid, nth_value(setting, k), salt if k % 3 else 0, tcp=bool(k & 1), counted=True)
+        check_write(acc, variant, sid, nth_value(setting, k), salt if k % 3 else 0, tcp=bool(k & 1), counted=True,
+                    expect_def=(rs.type_name(setting), setting.offset, setting.size_))
     return acc
 
 
@@ -455,11 +489,17 @@ def instance_job(job):
         if size:
             ks = sorted({0, 1, 2, size - 1, size - 2, size // 2, size // 2 - 1, size // 2 + 1, 32767 % size, 32768 % size, 57 % size, 32825 % size}
                         | {mix(seed, hash(sid) & 0xFFFF, j) % size for j in range(nvals)})
+            edef = (rs.type_name(setting), setting.offset, setting.size_)
             for k in ks:
-                check_write(acc, variant, sid, nth_value(setting, k), seed + k, tcp=bool(k & 1))
+                check_write(acc, variant, sid, nth_value(setting, k), seed + k, tcp=bool(k & 1), expect_def=edef)
+            for k in ks[:3]:
+                check_write(acc, variant, sid, nth_value(setting, k), seed + k, tcp=bool(k & 1), interloper=True, expect_def=edef)
         else:
+            edef = (rs.type_name(setting), setting.offset, setting.size_)
             for j, v in enumerate(wide_values(setting, nvals // 4, seed)):
-                check_write(acc, variant, sid, v, seed + j, tcp=bool(j & 1))
+                check_write(acc, variant, sid, v, seed + j, tcp=bool(j & 1), expect_def=edef)
+                if j < 3:
+                    check_write(acc, variant, sid, v, seed + j, tcp=bool(j & 1), interloper=True, expect_def=edef)
         if len(acc.samples) < 2:
             acc.sample({"variant": variant, "setting": sid, "type": rs.type_name(setting), "offset": setting.offset, "size": setting.size_})
     return acc
@@ -493,7 +533,7 @@ def hyp_job(job):
             if not vals:
                 return []
             value = vals[k % len(vals)]
-        check_write(sub, variant, sid, value, salt, tcp)
+        check_write(sub, variant, sid, value, salt, tcp, interloper=bool(salt % 5 == 0), expect_def=(rs.type_name(setting), setting.offset, setting.size_))
         acc.evals += sub.evals
         acc.nt |= sub.nt
         acc.cls("hyp|" + rs.type_name(setting))
@@ -629,4 +669,4 @@ def replay(ctx, case):
     if case.get("e2e"):
         ctx.acc.merge(e2e_job((case["variant"], case.get("seed", 1))))
         return
-    check_write(ctx.acc, case["variant"], case["setting"], v, case.get("salt", 0), case.get("tcp", False), prior_word=case.get("prior_word"))
+    check_write(ctx.acc, case["variant"], case["setting"], v, case.get("salt", 0), case.get("tcp", False), prior_word=case.get("prior_word"), interloper=case.get("interloper", False))
